@@ -96,19 +96,27 @@ func TestVerifC21Relay(t *testing.T) {
 
 	// what the serving node's store does: gzip the backup into the connection
 	// (store.Backup with br.Compress forced to true), failing after failAfter bytes if >= 0
+	// (like store.Backup: a real gzip.Writer over the connection; when the SOURCE fails after
+	// srcFail bytes the writer is flushed but not closed — no trailer — and an error returned)
 	var payload []byte
-	failAfter := -1
+	srcFail := -1
 	db.backupFn = func(br *command.BackupRequest, dst io.Writer) error {
 		if !br.Compress {
 			return errors.New("c21: the serving side must force compression")
 		}
-		gz := c21Gzip(payload)
-		if failAfter >= 0 && failAfter < len(gz) {
-			dst.Write(gz[:failAfter])
-			return errors.New("c21: scripted backup failure on the serving node")
+		zw, err := gzip.NewWriterLevel(dst, gzip.BestSpeed)
+		if err != nil {
+			return err
 		}
-		_, err := dst.Write(gz)
-		return err
+		if srcFail >= 0 && srcFail < len(payload) {
+			zw.Write(payload[:srcFail])
+			zw.Flush()
+			return errors.New("c21: scripted source failure on the serving node")
+		}
+		if _, err := zw.Write(payload); err != nil {
+			return err
+		}
+		return zw.Close()
 	}
 
 	validate := "1" // the tree's client checks a compressed stream it passes through (see Gen.Backup)
@@ -141,18 +149,18 @@ func TestVerifC21Relay(t *testing.T) {
 			for _, mode := range []string{"network-cut", "serving-node-fails"} {
 				for _, cut := range cuts {
 					limit := 1 << 30
-					failAfter = -1
+					srcFail = -1
 					effCut := cut
 					if mode == "network-cut" {
 						limit = cut
 					} else {
-						if cut < frameLenOK {
-							continue // the serving node fails only after it has sent its response
+						// the serving node's source fails after a fraction of the payload
+						if cut < frameLenOK || len(payload) == 0 {
+							continue
 						}
-						failAfter = cut - frameLenOK
-						if failAfter >= len(gz) {
-							failAfter = -1
-							effCut = total
+						srcFail = (cut - frameLenOK) * len(payload) / (len(gz) + 1)
+						if srcFail >= len(payload) {
+							srcFail = len(payload) - 1
 						}
 					}
 					cl := NewClient(&c21CutDialer{inner: mustNewDialer(1, false, false), limit: limit}, 5*time.Second)
@@ -178,15 +186,25 @@ func TestVerifC21Relay(t *testing.T) {
 					if compress {
 						c = "1"
 					}
-					ops = append(ops, fmt.Sprintf("relay %s %s %d %d 0 %d", validate, c, frameLenOK, len(gz), effCut))
+					if mode == "network-cut" {
+						ops = append(ops, fmt.Sprintf("relay %s %s %d %d 0 %d", validate, c, frameLenOK, len(gz), effCut))
+					} else {
+						ops = append(ops, fmt.Sprintf("servefail 0 %s %s", validate, c))
+						if err == nil {
+							res = "ok-partial"
+						}
+					}
 					impl = append(impl, res)
-					inside := effCut < total
+					inside := effCut < total || mode != "network-cut"
 					rep.Case(fmt.Sprintf("%d:%v:%s:%d", size, compress, mode, cut), inside)
 					rep.Count(fmt.Sprintf("relay:%s:compress=%v:%s", mode, compress, res[:4]))
 					if inside && err == nil {
 						where := "inside-gzip-stream"
 						if effCut <= frameLenOK {
 							where = "before-any-backup-byte"
+						}
+						if mode != "network-cut" {
+							where = fmt.Sprintf("source failed after %d of %d payload bytes", srcFail, len(payload))
 						}
 						rep.Fail(fmt.Sprintf("relay:incomplete-transfer-returned-as-success:compress=%v:%s", compress, mode),
 							fmt.Sprintf("payload %d bytes (gzip %d), stream ended after %d of %d bytes (%s): Client.Backup returned nil with %d bytes", size, len(gz), effCut, total, where, out.Len()),
